@@ -33,13 +33,13 @@ var R = hx.NewRecorder("C08", "cases = attacker catalogue x GMSSL suite x client
 func TestMain(m *testing.M) {
 	for _, k := range []string{"sign_cert_wrong_key", "enc_cert_wrong_key", "untrusted", "expired", "future", "wrongname", "enc_expired", "rsa_sign_cert", "rsa_enc_cert", "swapped", "client_wrong_key", "client_untrusted", "client_expired",
 		"ske_omitted", "ske_other_key", "ske_other_randoms", "ske_other_enccert", "ske_garbage", "cv_omitted", "cv_other_key", "cv_replayed", "cv_chain_confusion", "ske_sig_not_der", "cv_sig_not_der", "finished_wrong",
-		"mitm_byte", "mitm_suites", "mitm_ske_replay", "mitm_cke_replay", "mitm_cert_swap", "mitm_cert_attacker", "baseline", "tls_server_name", "enc_cert_twice", "sign_cert_twice", "sign_cert_enc_key", "ecdhe_ske_other_key", "resumption_other_name", "untrusted_with_own_ca", "declined_resumption_reverifies"} {
+		"mitm_byte", "mitm_suites", "mitm_ske_replay", "mitm_cke_replay", "mitm_cert_swap", "mitm_cert_attacker", "baseline", "tls_server_name", "enc_cert_twice", "sign_cert_twice", "sign_cert_enc_key", "ecdhe_ske_other_key", "resumption_other_name", "untrusted_with_own_ca", "declined_resumption_reverifies", "client_expired_ca", "tls_chain_expired_ca"} {
 		R.Require("attack:" + k)
 	}
 	for _, k := range []string{"rsa", "p224", "p256", "p384", "p521"} {
 		R.Require("std_client_wrong_key:" + k)
 	}
-	R.Require("pinned_peer_rejects", "attack:session_cache_eviction", "eviction_then_redirect", "attack:dial_entry_points", "dial:Dial", "dial:DialWithDialer")
+	R.Require("pinned_peer_rejects", "attack:session_cache_eviction", "eviction_then_redirect", "redirect_between_servers_with_default_ticket_keys", "attack:dial_entry_points", "dial:Dial", "dial:DialWithDialer")
 	R.Require("suite:e013", "suite:e053", "skipverify")
 	hx.Main(m, R)
 }
@@ -56,7 +56,7 @@ func TestC08_MisconfiguredPeers(t *testing.T) {
 	p := tlsx.GetPKI()
 	n := 0
 	serverAttacks := []string{"baseline", "sign_cert_wrong_key", "enc_cert_wrong_key", "untrusted", "expired", "future", "wrongname", "enc_expired", "rsa_sign_cert", "rsa_enc_cert", "swapped", "enc_cert_twice", "sign_cert_twice", "sign_cert_enc_key", "untrusted_with_own_ca"}
-	clientAttacks := []string{"baseline", "client_wrong_key", "client_untrusted", "client_expired", "client_std_right_key", "client_std_wrong_key", "client_std_wrong_key"}
+	clientAttacks := []string{"baseline", "client_wrong_key", "client_untrusted", "client_expired", "client_expired_ca", "client_std_right_key", "client_std_wrong_key", "client_std_wrong_key"}
 	hx.Check(t, hx.N(300, 4000), func(t *rapid.T) {
 		n++
 		suite := rapid.SampledFrom(suites).Draw(t, "suite")
@@ -146,6 +146,9 @@ func TestC08_MisconfiguredPeers(t *testing.T) {
 				expectFail = sc.ClientAuth != gmtls.RequireAnyClientCert
 			case "client_expired":
 				cert = p.ClientExpired.TLS
+				expectFail = sc.ClientAuth != gmtls.RequireAnyClientCert
+			case "client_expired_ca":
+				cert = p.ClientViaExpiredCA.TLS
 				expectFail = sc.ClientAuth != gmtls.RequireAnyClientCert
 			}
 			if strings.HasPrefix(attack, "client_std_") {
@@ -816,10 +819,11 @@ func TestC08_DeclinedResumptionReverifies(t *testing.T) {
 func TestC08_SessionCacheEviction(t *testing.T) {
 	p := tlsx.GetPKI()
 	run := 0
-	hx.Check(t, hx.N(40, 500), func(t *rapid.T) {
+	hx.Check(t, hx.N(80, 800), func(t *rapid.T) {
 		run++
 		mode := rapid.SampledFrom([]string{"gm", "tls"}).Draw(t, "mode")
 		capacity := rapid.IntRange(1, 2).Draw(t, "capacity")
+		defaultKeys := gen.OneIn(t, "defaultTicketKeys", 2)
 		cache := gmtls.NewLRUClientSessionCache(capacity)
 		names := []string{"server.test", "other.test", "SERVER.test"}
 		holder := []int{0, 1, 0}
@@ -852,7 +856,9 @@ func TestC08_SessionCacheEviction(t *testing.T) {
 			}
 			cc.ServerName = names[ni]
 			cc.ClientSessionCache = cache
-			sc.SetSessionTicketKeys([][32]byte{{7, 7, byte(reached)}})
+			if !defaultKeys {
+				sc.SetSessionTicketKeys([][32]byte{{7, 7, byte(reached)}})
+			} // else: no ticket key is configured; each server configuration draws its own from its randomness source
 			r := tlsx.Run(cc, sc, tlsx.Script{ClientSend: []byte("secret"), ServerSend: []byte("reply"), ServerAddr: "10.9.9.9:443"})
 			valid := reached == holder[ni]
 			hist = append(hist, fmt.Sprintf("ask %q, reach the server holding %q -> client err=%v resumed=%v", names[ni], []string{"server.test", "other.test"}[reached], r.Client.HSErr, r.Client.HSErr == nil && r.Client.State.DidResume))
@@ -879,6 +885,9 @@ func TestC08_SessionCacheEviction(t *testing.T) {
 		cl := []string{"attack:session_cache_eviction"}
 		if evictions > 0 && redirected > 0 {
 			cl = append(cl, "eviction_then_redirect")
+		}
+		if defaultKeys && redirected > 0 {
+			cl = append(cl, "redirect_between_servers_with_default_ticket_keys")
 		}
 		R.Case(true, hx.HashKey("evict", strings.Join(hist, "|")), cl...)
 	})
@@ -989,5 +998,45 @@ func TestC08_DialEntryPoints(t *testing.T) {
 			}
 		}
 		ln.Close()
+	}
+}
+
+// The TLS-mode client builds chains through the certificates the server sends along. A chain whose issuing CA has
+// expired at the configured time is no chain, however valid the server certificate itself is; the same shape of chain
+// through a valid issuing CA is the control. (The GMSSL client does not use CA certificates sent by the server at all,
+// so this route exists on the TLS side only; the GMSSL server's handling of client chains is in the attack catalogue
+// above, client_expired_ca.)
+func TestC08_TLSChainThroughExpiredCA(t *testing.T) {
+	p := tlsx.GetPKI()
+	n := 0
+	for _, via := range []string{"valid_ca", "expired_ca"} {
+		for _, skip := range []bool{false, true} {
+			for _, suite := range []uint16{0xc02f, 0x009c, 0xc014} {
+				n++
+				srv := p.RSASrvViaInter
+				if via == "expired_ca" {
+					srv = p.RSASrvViaExpiredCA
+				}
+				cc, sc := tlsx.TLSClient(p, fmt.Sprint("tce-c", n)), tlsx.TLSServer(p, srv, fmt.Sprint("tce-s", n))
+				cc.CipherSuites, sc.CipherSuites = []uint16{suite}, []uint16{suite}
+				cc.InsecureSkipVerify = skip
+				r := tlsx.Run(cc, sc, tlsx.Script{ClientSend: []byte("secret"), ServerSend: []byte("reply")})
+				desc := fmt.Sprintf("TLS client (InsecureSkipVerify=%v), server certificate valid, issued by a CA that is %s, suite %04x: %s", skip, via, suite, r.Describe())
+				if r.Client.Panic != nil || r.Server.Panic != nil {
+					t.Fatalf("panic\n%s", desc)
+				}
+				want := via == "valid_ca" || skip
+				if want && (r.Client.HSErr != nil || r.Server.HSErr != nil) {
+					t.Fatalf("a valid chain through an issuing CA was refused\n%s", desc)
+				}
+				if !want && r.Client.HSErr == nil {
+					t.Fatalf("the client COMPLETED a handshake with a server whose chain runs through a CA that has expired at the configured time\n%s", desc)
+				}
+				if !want && len(r.Server.Received) > 0 {
+					t.Fatalf("client data reached a server it must not accept\n%s", desc)
+				}
+				R.Case(true, hx.HashKey("tce", via, skip, suite), "attack:tls_chain_expired_ca", "tls_chain:"+via)
+			}
+		}
 	}
 }
